@@ -302,6 +302,13 @@ func c20Exec(op string) string {
 		if ec == nil {
 			one := enc(map[string]interface{}(mc2))
 			chk("x2jw.XmlMsgsFromReader", em == nil && len(seen) == 2 && seen[0] == one && seen[1] == one)
+			// stop after the first message, then go on reading the SAME reader (no ReadByte method):
+			// nothing beyond the first message may have been consumed
+			cr := &chunkReader{data: append([]byte{}, two...), sizes: []int{64, 3, 1000}}
+			var first, rest []string
+			x2jw.XmlMsgsFromReader(cr, func(m map[string]interface{}) bool { first = append(first, enc(m)); return false }, eh, cast)
+			x2jw.XmlMsgsFromReader(cr, func(m map[string]interface{}) bool { rest = append(rest, enc(m)); return true }, eh, cast)
+			chk("x2jw.XmlMsgsFromReader(stop, continue)", len(first) == 1 && first[0] == one && len(rest) == 1 && rest[0] == one)
 			var seenJ []string
 			emj := x2jw.XmlMsgsFromReaderAsJson(bytes.NewReader(two), func(s string) bool { seenJ = append(seenJ, s); return len(seenJ) < 1 }, eh, cast)
 			ref, _ := json.Marshal(map[string]interface{}(mc2))
